@@ -65,7 +65,11 @@ def main():
         meta['demo_output_tail'] = (r1.stdout + r1.stderr)[-600:]
         meta['checks'] = {}
         for pr in props:
+            ev = Path(VERIF) / 'evidence' / f'{pr}.json'
+            ev_keep = ev.read_text() if ev.exists() else None      # the committed evidence must describe the unchanged tree: put it back afterwards
             c = subprocess.run(['./check', pr, '--tier', 'quick'], cwd=VERIF, capture_output=True, text=True, timeout=3000)
+            if ev_keep is not None:
+                ev.write_text(ev_keep)
             vio = [ln for ln in c.stdout.splitlines() if ln.startswith(('VIOLATION', 'KNOWN-FINDING'))]
             meta['checks'][pr] = {'rc': c.returncode, 'lines': vio[:5]}
             # keep one replay as an example of what the check reports
